@@ -27,6 +27,7 @@ let () =
 
 let () = Kinds_extra.register reg
 let () = Kinds_graph.register reg
+let () = Kinds_engine.register reg
 
 let () =
   let emit = Array.length Sys.argv > 2 && Sys.argv.(2) = "-emit" in
@@ -51,7 +52,7 @@ let () =
           if emit then print_endline (String.trim lhs ^ " | " ^ m_s)
           else begin
             let obs = split_ws rhs in
-            let i_s = String.concat " " obs in
+            let i_s = String.concat " " (if kind = "eng" then Kinds_engine.eng_impl_view obs else obs) in
             if m_s <> i_s then begin
               incr diffs;
               Printf.printf "DIFF line=%d case=%s model=[%s] impl=[%s]\n" !lineno (String.trim lhs) m_s i_s
